@@ -15,6 +15,12 @@ import JominiModel.Generated.Tables
 C01 — Text tape mirrors the document's structure regardless of layout.
 Only property theorems live here; helper lemmas are in `Proofs/TextTape*.lean`.
 All theorems are about the model `Model/TextTape.lean` of /repo/src/text/tape.rs.
+
+The "freshly created or reused tape" clause of C01 is vacuous at the model level: the model has
+no tape object, `parse` is a function of the input bytes alone (`TokenTape::clear` + `parse` is the
+same function).  The clause is covered on the real code by the harness op `treuse` (one `TextTape`
+reused across all generated inputs, compared with a fresh parse of each) and by C19's reused-tape
+oracle.
 -/
 namespace Jomini.Props.C01
 open Jomini Jomini.TextTape
